@@ -7,19 +7,19 @@ HOOK_COMMITS = ["7fd8a4f"]  # fix commits (unguarded): 59fc98c (D1), a6495b1 (D2
 # id -> (category, technique, level text, level note, design ref)
 CHECKS = {
  "C01": ("exploration", "runtime monitoring: online reference-model oracle (independent bit-array BIP39 encoder over frozen golden lists) on every NewMnemonicByEntropy call of a generated workload run in child processes",
-         "Every (word position, 11-bit index) pair of the first n-1 words, every SHA-256 first-byte value at every checksum width, all bit/byte boundary runs and seeded random entropies are executed for all 10 languages x 5 sizes and each returned string is compared byte-for-byte with the reference sentence (separator rule included). Held-on-what-was-observed, with the factor coverage measured and written to the evidence.",
+         "Every (word position, 11-bit index) pair of the first n-1 words, every SHA-256 first-byte value at every checksum width, all bit/byte boundary runs, runs of ones/zeros at every offset, byte-value sweeps, sentences made of the longest and shortest list words, seeded random entropies and in-process call histories are executed for all 10 languages x 5 sizes and each returned string is compared byte-for-byte with the reference sentence (separator rule included). Held-on-what-was-observed, with the factor coverage measured and written to the evidence.",
          "Trusted: golden lists (English digest = published digest), crypto/sha256, the harness reference encoder (self-tested on published vectors). The 2^128..2^256 entropy space itself is sampled, not enumerated.",
          "DESIGN.md section 5, C01"),
  "C02": ("exploration", "runtime monitoring: generate->check pairs executed in child processes; acceptance oracle on the implementation's own output and on reference-encoded sentences",
-         "The C01 corpus (every list word at every position, 1..32 leading zero bytes, all-ones, boundary runs, random) is encoded and fed straight back into CheckMnemonic/IsMnemonicValid in the child; the reference encoder's sentence for the same entropy is validated too, so a compensating encoder/validator bug pair cannot hide; NewMnemonic output from default and scripted sources included.",
+         "The C01 corpus (every list word at every position, 1..32 leading zero bytes, all-ones, boundary runs, longest/shortest-word sentences, byte-value sweeps, random) is encoded and fed straight back into CheckMnemonic/IsMnemonicValid in the child; the reference encoder's sentence for the same entropy is validated too, so a compensating encoder/validator bug pair cannot hide; NewMnemonic output from default and scripted sources included.",
          "Trusted: golden lists, reference encoder. Sampled entropy space; emphasis classes counted in the evidence.",
          "DESIGN.md section 5, C02"),
  "C03": ("exploration", "runtime monitoring: hostile validation workload judged by an independent reference validator (CPython NFKD, golden lists, SHA-256); accept-set size tallies per prefix",
-         "For fixed prefixes all 2048 final words (accepted set must be exactly the reference's, size 2^(11-n/3)), all 2047 substitutions at every position, transpositions, count changes 0..30, other lists' words and sentences, case/affix/white-space damage, checksum-bit flips and byte fuzz incl. invalid UTF-8: any accepted string must be reference-valid and IsMnemonicValid must equal (CheckMnemonic == nil).",
+         "For fixed prefixes all 2048 final words (accepted set must be exactly the reference's, size 2^(11-n/3)), all 2047 substitutions at every position, transpositions, count changes 0..30, other lists' words and sentences, case/affix/white-space damage, every list word with an affix, checksum-bit flips, byte fuzz incl. invalid UTF-8, and in-process histories (a sentence accepted, then asked under other languages / spellings / with one word changed): any accepted string must be reference-valid and IsMnemonicValid must equal (CheckMnemonic == nil).",
          "Only 'accepted => reference-valid' is asserted on arbitrary strings; 'reference-valid => accepted' only inside last-word sweeps. Trusted: CPython unicodedata, golden lists.",
          "DESIGN.md section 5, C03"),
  "C04": ("exploration", "runtime monitoring: per-call oracle = PBKDF2 written out over crypto/hmac with CPython's NFKD (independent of x/crypto and x/text); freshness observed by clobbering a second result and comparing backing arrays",
-         "Seeds for empty/ASCII/valid/invalid mnemonics of all languages, lengths around and beyond the HMAC block (to 1 MiB), four normal forms, compatibility characters, reordering marks, leading marks, Hangul and random Unicode are compared with the reference; one case in eight observes freshness. Known finding D3 (inputs with > 30 consecutive non-starters) is listed by exact witness.",
+         "Seeds for empty/ASCII/valid/invalid mnemonics of all languages, lengths around and beyond the HMAC block (to 1 MiB), four normal forms, compatibility characters, reordering marks, leading marks, Hangul, random Unicode, every decomposing code point and combining mark once (thorough: every assigned code point), every byte length 0..300 and in-process histories (identical arguments, the same concatenation split elsewhere) are compared with the reference; one case in eight observes freshness (two calls, clobber, third call). Known finding D3 (inputs with > 30 consecutive non-starters) is listed by exact witness.",
          "Oracle domain: CPython-assigned code points, non-starter runs <= 25. Trusted: CPython unicodedata, crypto/hmac, crypto/sha512.",
          "DESIGN.md section 5, C04"),
  "C05": ("exploration", "runtime monitoring: independent bit-array decoder applied to every returned sentence; run-wide collision map; all single-bit flips of base entropies",
@@ -27,11 +27,11 @@ CHECKS = {
          "Trusted: golden lists, reference decoder. Sampled entropy space; all bit positions of each width are flipped.",
          "DESIGN.md section 5, C05"),
  "C06": ("fault_enumeration", "runtime monitoring with fault injection: scripted randomness source installed through the verif hook; source-side event log (every Read) compared with the call's result",
-         "Every failure point k in 0..4n/3-1 for each n x {EOF, unexpected EOF, custom} x {error alone, alongside the last bytes} plus plain end of data, each under several fragmentations, must give (\"\", non-nil error); successes under the same fragmentations must equal the reference encoding of the first 4n/3 delivered bytes with n words. The failure matrix must be complete or the run is inconclusive.",
+         "Every failure point k in 0..4n/3-1 for each n x 13 failure kinds (EOF, unexpected EOF, custom, EINTR, EAGAIN, PathError, Temporary/Timeout, deadline, ErrNoProgress, ErrShortBuffer, ErrClosedPipe, wrapped EOF; sticky) x {error alone, alongside the last bytes} plus plain end of data, each under several fragmentations, must give (\"\", non-nil error); successes under the same fragmentations must equal the reference encoding of the first 4n/3 delivered bytes with n words. The failure matrix must be complete or the run is inconclusive.",
          "The error-alongside-the-completing-read corner accepts either outcome. Trusted: the hook, the harness's scripted reader, reference encoder.",
          "DESIGN.md section 5, C06"),
- "C07": ("exploration", "runtime monitoring of fresh processes at three boundaries: identity of the pre-swap source (hook), interposition on crypto/rand.Reader before package init, strace of getrandom(2); plus duplicate/uniformity statistics",
-         "In processes that swapped nothing the source must be crypto/rand.Reader itself; with the interposer every sentence must decode to exactly the bytes crypto/rand.Reader delivered during that call; un-hooked processes under strace must decode to getrandom buffers; no duplicate entropy across processes; monobit/chi-square sanity.",
+ "C07": ("exploration", "runtime monitoring of fresh processes at three boundaries: identity of the pre-swap source (hook), interposition on crypto/rand.Reader before package init (with fault injection and, under the race detector, per-goroutine attribution of reads), strace of getrandom(2); plus duplicate/uniformity statistics",
+         "In processes that swapped nothing the source must be crypto/rand.Reader itself; with the interposer every sentence must decode to exactly the bytes crypto/rand.Reader delivered during that call (also when reads are fragmented, when one read fails - then ("", error) is required - and when 4-16 goroutines call concurrently); un-hooked processes under strace must decode to getrandom buffers; no duplicate entropy across processes; monobit/chi-square sanity.",
          "Trusted: Go package initialisation order (checked at run time: if the interposer is not captured the layer is reported inconclusive), strace visibility of getrandom with go1.23. Statistical thresholds have false-alarm probability < 1e-11.",
          "DESIGN.md section 5, C07"),
  "C08": ("exploration", "runtime monitoring over a finite domain enumerated completely: word emitted per (language, index) through the API vs frozen golden lists; validation verdicts on crafted sentences; parsed source literals",
@@ -43,35 +43,35 @@ CHECKS = {
          "Trusted: errors.Is against the package's exported sentinels evaluated in the child; hook and interposer for byte counting.",
          "DESIGN.md section 5, C09"),
  "C10": ("exploration", "runtime monitoring: metamorphic oracle — pairs of spellings whose NFKD forms are equal according to CPython must get the same CheckMnemonic verdict",
-         "Every list word of every language at every word count, in NFC/NFD/NFKC/NFKD/single-code-point pre-images (full-width, ligatures, precomposed, Hangul syllables, compatibility ideographs)/mixed, with U+0020, U+3000 and other space-like separators; near-miss sentences; random Unicode strings with their normal forms. Coverage of all non-trivial (language, word, form) triples is required.",
+         "Every list word of every language at every word count, in NFC/NFD/NFKC/NFKD/single-code-point pre-images (full-width, ligatures, precomposed, Hangul syllables, compatibility ideographs)/mixed, with U+0020, U+3000 and other space-like separators; near-miss sentences; random Unicode strings with their normal forms; in-process histories (a spelling under one language, then another, each followed by its NFKD spelling). Coverage of all non-trivial (language, word, form) triples is required.",
          "Precondition decided by CPython (pairs failing it are skipped and counted). Domain: assigned code points, non-starter runs <= 25.",
          "DESIGN.md section 5, C10"),
  "C11": ("exploration", "runtime monitoring: metamorphic oracle — (mnemonic, passphrase) pairs with component-wise equal NFKD forms (CPython) must give identical seeds; baseline also compared with the reference seed",
-         "Sentences containing every list word in every form, both separators (Japanese always), and passphrases/free-form mnemonics from the compatibility/combining generators in four normal forms and pre-image respellings. Known finding D3 listed by exact witness pairs.",
+         "Sentences containing every list word in every form, both separators (Japanese always), and passphrases/free-form mnemonics from the compatibility/combining generators in four normal forms and pre-image respellings, every decomposing code point and mark once, ASCII prefixes of every length, in-process histories. Known finding D3 listed by exact witness pairs.",
          "Same oracle domain as C04/C10.",
          "DESIGN.md section 5, C11"),
  "C12": ("exploration", "Go race detector (-race build of the child, reports read from log files) over cold-start processes, plus per-call reference oracle, exactly-once accounting of shared-source bytes, and sequential replay",
-         "48 (thorough 1200) fresh processes with 2..64 goroutines released by one barrier, contended first uses of seed-chosen languages (simultaneous and staggered), GOMAXPROCS 1..16; any race report with a frame of the package is a violation; every result must equal the reference and the sequential replay; overlap degrees are measured and a run without overlap is inconclusive.",
+         "48 (thorough 1200) fresh processes with 2..64 goroutines released by one barrier, contended first uses of seed-chosen languages (simultaneous and staggered), a third preceded by a sequential history of failing calls, GOMAXPROCS 1..16; plus 8 (thorough 96) stress processes repeating a small shared pool of calls 120-4000 times; any race report with a frame of the package is a violation; every result must equal the reference and the sequential replay; overlap degrees are measured and a run without overlap is inconclusive.",
          "Trusted: the race detector's happens-before analysis; schedules are those the OS produces. Calibrated on nil-check, double-checked-locking and shared-scratch mutants.",
          "DESIGN.md section 5, C12"),
  "C13": ("exploration", "runtime monitoring of call histories in fresh processes: history-free reference model, solo re-execution of each call in its own fresh process, caller-owned buffer re-inspection, end-of-sequence re-read of retained results",
-         "Every ordered pair of first-used languages (own process each) followed by probes on all languages, and seeded random sequences of 100-300 calls over all functions/languages incl. failures, repeated inputs and reused entropy buffers.",
+         "Every ordered pair of first-used languages (own process each) followed by probes on all languages, ten kinds of failing/unsupported first calls x ten languages, memo-hunting patterns, canary-filled spare capacity behind entropy slices, and seeded random sequences of 100-300 calls over all functions/languages incl. failures, repeated inputs and reused entropy buffers.",
          "NewMnemonic on the default source is checked for validity only. Calls on unsupported Language values are compared with their solo execution only.",
          "DESIGN.md section 5, C13"),
  "C14": ("exploration", "runtime monitoring for crashes and hangs: each hostile call is announced before it is made in a child process; recovered panics, process deaths, CPU-budget and memory watchdogs are attributed to the call in flight",
-         "Every function/method x hostile Language values, all token counts, nil/short/huge entropy, int extremes for word counts with five kinds of source, and string shapes up to 1 MiB (thorough 16 MiB): invalid UTF-8 of every shape, NUL, huge tokens, 10^6 tokens, long combining runs, U+FDFA, Hangul, unassigned code points, seeded splices.",
+         "Every function/method x hostile Language values, all token counts, nil/short/huge entropy, int extremes for word counts with five kinds of source, a valid sentence frame with one hostile token of every length 1..130 runes, and string shapes up to 1 MiB (thorough 16 MiB): invalid UTF-8 of every shape, NUL, huge tokens, 10^6 tokens, long combining runs, U+FDFA, Hangul, unassigned code points, seeded splices.",
          "A hang is CPU > 10 s + 8 s/MiB of arguments (16x worst measured) or not returning when run alone; wall-clock alone never decides.",
          "DESIGN.md section 5, C14"),
  "C15": ("exploration", "runtime monitoring: single-defect sentences built by the parent; error class reported by the child via errors.Is; message checked for the unknown token",
-         "Count-only, checksum-only (reference decoder says bad checksum; every wrong final word of sampled prefixes incl. zero-leading ones) and unknown-token sentences (unique markers at every position, foreign words, affixed/case-damaged) over all languages x counts must give ErrWordLen / ErrChecksumIncorrect / another non-nil error naming an unknown token.",
+         "Count-only, checksum-only (reference decoder says bad checksum; every wrong final word of sampled prefixes incl. zero-leading ones) and unknown-token sentences (unique markers at every position, foreign words, affixed/case-damaged, percent verbs, backticks, invalid UTF-8, tokens of 70..70000 bytes) over all languages x counts, plus in-process histories, must give ErrWordLen / ErrChecksumIncorrect / another non-nil error naming an unknown token.",
          "Sentences with several defects are only required to be rejected.",
          "DESIGN.md section 5, C15"),
  "C16": ("exploration", "runtime monitoring: Language.String() for dense ranges via digests computed in the child and compared with the expected names, bisected on mismatch; boundary and random int64 values individually",
-         "The ten supported values (complete), every value in [-70000,70000] (thorough [-2^24,2^24]), integer-width boundaries, values congruent to supported ones modulo 2^8/2^16/2^32, random values and windows.",
+         "The ten supported values (complete), every value in [-2^20,2^20] (thorough [-2^24,2^24]), integer-width boundaries, values congruent to supported ones modulo 2^8/2^16/2^32, log-uniform values, random values and windows, and 16 uninterrupted histories of 2^23 (thorough 2^26) random values each.",
          "Expected names are the declared identifiers of the constants.",
          "DESIGN.md section 5, C16"),
  "C17": ("exploration", "runtime monitoring of the generator tool: built with the verif fetch-redirect hook, run against a loopback HTTP server operated by the parent; outputs parsed, type-checked, compared with the inputs; scratch rebuild of the repository observed through the API",
-         "Canonical lists and seeded inputs (0..5000 words, scripts of the BIP39 lists and others, leading/doubled/non-canonical marks, Go keywords, long words, blank lines in every position, with/without trailing newline) for all ten targets per run; request log checked; runs with ten 2048-word inputs are rebuilt and each language must emit the words served under its file name.",
+         "Canonical lists, a run with every assigned combining mark at either end of a word and every assigned letter, and seeded inputs (0..5000 words, scripts of the BIP39 lists and others, leading/doubled/non-canonical marks, Go keywords, long words, blank lines in every position, with/without trailing newline) for all ten targets per run; request log checked; runs with ten 2048-word inputs are rebuilt and each language must emit the words served under its file name.",
          "Characters outside the property's domain (quotes, <, &, backslash, CR) are not generated. Loopback HTTP is available in the sandbox.",
          "DESIGN.md section 5, C17"),
 }
